@@ -10,6 +10,16 @@ ASSUMPTIONS = [
     "different components: Model/Resolver.lean keys a call by callee, positional arguments and the "
     "keyword->value dict)",
     "numeric literals are small plain decimals (str(float) without exponent form)",
+    "the specification reads the text with the DOCUMENTED precedence table (Spec.C01.refParse = parse "
+    "under Spec.C01.documentedTable) and Spec.C02.den is evaluated on that tree; the model of the "
+    "implementation reads it with the table regenerated from parser.py.  The two are equal on the "
+    "unchanged tree (theorem Tie.parser_table); where they differ the verdict comes from the documented "
+    "reading, and no known-finding class is applied (a class explains a failure only where the "
+    "implementation builds the documented tree)",
+    "twin operands: every operator is also given two operands that denote the SAME set of terms -- the "
+    "same parenthesised sum of two / three of {a, b, c} in every pair of orders, alone and inside "
+    "+ - : * / ** and on either side of '|' (exhaustive), and random trees S op S' with S' = S up to the "
+    "order of the operands of '+'",
     "in-place mutation of Model objects is unobservable through Resolver (each value consumed once): "
     "checked by this correspondence, not assumed",
 ]
@@ -89,6 +99,64 @@ def rand_tree(rng, n, leaves):
     return (op, rand_tree(rng, k, leaves), r)
 
 
+def sum_tree(terms):
+    t = terms[0]
+    for x in terms[1:]:
+        t = ("+", t, x)
+    return t
+
+
+def reorder_sums(rng, t):
+    """the same tree with the operands of '+' (commutative: same set of terms) swapped at random"""
+    if isinstance(t, str):
+        return t
+    op, l, r = t
+    l, r = reorder_sums(rng, l), reorder_sums(rng, r)
+    if op == "+" and rng.random() < 0.5:
+        return (op, r, l)
+    return (op, l, r)
+
+
+TWIN_CONTEXTS = ["{}", "d + {}", "{} + d", "({}):d", "d:({})", "({}) - a", "({}) ** 2", "(x | {})",
+                 "({} | g)", "({}) / d", "d * ({})"]
+
+
+def twin_forms(tier, seed):
+    """an operator whose two operands denote the SAME set of terms: the same parenthesised sum
+    twice, written in the same or in another order -- (a + b) op (b + a) -- for every operator, alone
+    and inside other operators / on either side of '|'; exhaustive over sums of two and three of
+    {a, b, c} in every order, plus random pairs (S, S') with S a random tree and S' the same tree
+    with operands of '+' swapped"""
+    out = []
+    atoms = ["a", "b", "c"]
+    for n in (2, 3):
+        for left in itertools.permutations(atoms, n):
+            for right in itertools.permutations(left):
+                for op in OPS:
+                    core = render((op, sum_tree(list(left)), sum_tree(list(right))), 99)
+                    core = core[1:-1] if op != "|" else core
+                    for ctx in TWIN_CONTEXTS:
+                        out.append("y ~ " + ctx.format(core))
+    rng = rng_for(seed, "c02", "twins")
+    leaves = ["a", "b", "c", "d", "g", "f(x)", "f(x, 2)", "f(x, k=2)", "a", "b", "1", "0"]
+    for _ in range(1500 if tier == "quick" else 60000):
+        while True:
+            S = rand_tree(rng, rng.randrange(2, 5), leaves)
+            if not isinstance(S, str) and (S[0] == "+" or rng.random() < 0.3):
+                break
+        S2 = reorder_sums(rng, S) if rng.random() < 0.8 else S
+        node = (rng.choice(OPS), S, S2)
+        k = rng.randrange(4)
+        if k == 1:
+            node = (rng.choice(OPS), node, rand_tree(rng, rng.randrange(1, 4), leaves))
+        elif k == 2:
+            node = (rng.choice(OPS), rand_tree(rng, rng.randrange(1, 4), leaves), node)
+        elif k == 3:
+            node = ("|", rng.choice(["x", "1", "x + a", "0 + x"]), node)
+        out.append(rng.choice(["y ~ ", "y ~ ", "", "y ~ 0 + "]) + render(node))
+    return out
+
+
 def impl(s):
     from formulae import model_description
     try:
@@ -111,6 +179,8 @@ def explore(tier, seed, res=None, replay=None):
                 "rendered with minimal parentheses, all trees up to a leaf bound plus random deeper "
                 "ones (general alphabet, and families of call atoms differing only in one keyword "
                 "value or literal: numbers, strings, bools, None, nested calls, arithmetic); "
+                "plus twin operands (S op S' with S, S' the same sum in any two orders, every operator "
+                "and context); the denotation is taken on the parse under the documented precedence table; "
                 "non-trivial = parses and lies in the documented language (Spec.C02.Lang); distinct "
                 "by rendered string")
     forms = []
@@ -179,6 +249,12 @@ def explore(tier, seed, res=None, replay=None):
                 seen.add(s)
                 forms.append(s)
 
+        # operators whose two operands denote the same set of terms
+        for s in twin_forms(tier, seed):
+            if s not in seen:
+                seen.add(s)
+                forms.append(s)
+
     impl_out = [impl(s) for s in forms]
     out = ask([{"op": "c02", "s": s, "impl": io} for s, io in zip(forms, impl_out)])
     open_ids = {k["id"] for k in known_findings("C02")}
@@ -188,6 +264,20 @@ def explore(tier, seed, res=None, replay=None):
             res.count("parse_error")
             if "err" not in io:
                 res.mismatches.append({"case": {"s": s}, "impl": io, "model": mo})
+            sp = mo.get("spec") or {}
+            if sp.get("lang"):
+                # the grammar extracted from parser.py refuses a text that the documented grammar
+                # reads as a formula of the language: judged against the documented reading
+                res.count("lang")
+                res.count("parse_error:documented-grammar-accepts")
+                res.nontrivial.add(s)
+                if not sp["holds"]:
+                    res.failures.append({"case": {"s": s}, "impl": io, "classes": [], "finding": None,
+                                         "expected": {k: sp[k] for k in ("response", "common", "group")},
+                                         "why": "formula of the documented language (documented "
+                                                "precedence table) refused" if "err" in io else
+                                                "model_description differs from the Wilkinson-Rogers "
+                                                "expansion of the documented reading of the text"})
             continue
         if mo.get("ambiguous_identity"):
             res.count("skipped:ambiguous_identity")
@@ -230,7 +320,12 @@ def explore(tier, seed, res=None, replay=None):
             if not sp["holds"]:
                 classes = list(mo.get("classes", []))
                 fid = None
-                if not mismatch:
+                # a known finding explains a failure only where the implementation reads the text
+                # as documented (same tree from the documented and the extracted precedence table)
+                agrees = mo.get("parse_agrees", True)
+                if not agrees:
+                    res.count("documented-parse-differs-from-extracted-parse")
+                if not mismatch and agrees:
                     for c in classes:
                         if FINDING.get(c) in open_ids:
                             fid = FINDING[c]
@@ -239,9 +334,12 @@ def explore(tier, seed, res=None, replay=None):
                     res.known_hit[fid] = res.known_hit.get(fid, 0) + 1
                 res.failures.append({"case": case, "impl": io, "classes": classes, "finding": fid,
                                      "expected": {k: sp[k] for k in ("response", "common", "group")},
-                                     "why": "model_description differs from the Wilkinson-Rogers "
-                                            "expansion" if not i_err else
-                                            "formula of the documented language refused"})
+                                     "why": ("model_description differs from the Wilkinson-Rogers "
+                                             "expansion" + ("" if agrees else " of the documented reading "
+                                                            "of the text (Spec.C01.documentedTable; the "
+                                                            "grammar of parser.py builds another tree)"))
+                                     if not i_err else
+                                     "formula of the documented language refused"})
             elif len(res.samples) < 8 and res.evaluations % 3001 == 0:
                 res.samples.append({"s": s, "impl": io})
         else:
